@@ -53,8 +53,7 @@ def run(ctx):
 
     # binding self-test: a corrupted record must be rejected
     cbase = os.path.join(ctx.scratch, "c20corrupt")
-    n0 = len(ctx.failures)
-    v0 = ctx.validated
+    n0, v0, e0, t0 = len(ctx.failures), ctx.validated, ctx.evaluations, ctx.nontrivial
     res = ctx.drive(ct.PKG, "TestC20", env={"VERIF_TRACE_OUT": cbase, "VERIF_CORRUPT": ["ring", "owner", "owns", "digest"][ctx.seed % 4],
                                             "VERIF_MAXGROUPS": 120, "VERIF_TIER": "quick"}, label="C20/selftest", timeout=600)
     if res is not None:
@@ -62,7 +61,7 @@ def run(ctx):
                     "TestC20", {}, "C20/selftest", _match, parallel=1, timeout=600)
         rejected = len(ctx.failures) > n0
         del ctx.failures[n0:]
-        ctx.validated = v0
+        ctx.validated, ctx.evaluations, ctx.nontrivial = v0, e0, t0
         if not rejected:
             ctx.inconclusive.append("binding self-test: TLC accepted a trace with a corrupted record")
         else:
